@@ -33,7 +33,7 @@ chk("C04", "model_checking", "bounded-exhaustive enumeration of files x all boun
     "All (start, end) bound pairs over one representative per equivalence class, with no start <= end assumption, forward and reverse, on every file of the population; iteration up to the first None compared with the model filtered by both bounds.",
     MODEL, "DESIGN.md 4 C04")
 chk("C05", "model_checking", "bounded-exhaustive enumeration of key subsets x all prefixes over a 3-byte alphabet x 2 directions vs starts_with filter",
-    "All key subsets (size <= m) of the 40 strings of length <= 3 over {00,7F,FF} x every prefix string of length <= 3 (+ length-4 extensions) x forward/reverse, in single- and multi-block layouts; completeness and order are checked, not only soundness.",
+    "All key subsets (size <= m) of the 40 strings of length <= 3 over {00,01,FF} x every prefix string of length <= 3 (+ length-4 extensions) x forward/reverse, in single- and multi-block layouts; completeness and order are checked, not only soundness.",
     MODEL, "DESIGN.md 4 C05")
 chk("C06", "model_checking", "bounded-exhaustive enumeration of k <= 3/4 sources x all key subsets x source layouts, recorded merge-call log vs union map",
     "All source lists up to k sources, each any subset of a 4-key universe in one of 3 file layouts, two merge functions; the recorded merge calls (key, ordered values, count) and the streamed / written output are compared with the union map. Because the merger cannot inspect the merge function, the call log decides the property for every deterministic merge function.",
